@@ -14,7 +14,9 @@ TECHNIQUE = ('Tempita read sets vs context dictionaries at the four instantiatio
              'sites use and the key the template defines, constant propagation of class attributes through error_condition (partial '
              'evaluation over the finite class family), sentinel extraction from the C template, loop-variable agreement inside the '
              '{{for _size}} blocks, reference comparison of C-API argument/return types with the installed CPython headers; '
-             'per preprocessor/Tempita variant: guard / dominator extraction (cguard) and an interprocedural "sign-checked" typestate over the CIntFromPy functions')
+             'per preprocessor/Tempita variant: guard / dominator extraction (cguard) and an interprocedural "sign-checked" typestate over the CIntFromPy functions; '
+             'bounded model check of the instantiated conversion templates on model machines with a model PyLong (rules/pC03.py interpreter, documented contracts of the C-API as hooks); '
+             'typed truth table of the emitted sentinel comparison over every integer rank x signedness')
 DECIDES = ('(CTX) every load of CIntToPy / CIntFromPy binds all variables the template reads; the key used as the defined function name is bound to the '
            'very attribute (to_py_function / from_py_function) the call sites emit, that attribute was assigned a per-type name '
            '(contains specialization_name()) before, and TYPE is the type\'s own C declaration; '
@@ -27,9 +29,15 @@ DECIDES = ('(CTX) every load of CIntToPy / CIntFromPy binds all variables the te
            'in CIntToPy each `sizeof(T) <op> sizeof(G)) return Api((C) value)` has C == G == parameter type of Api, signed G in the unsigned branch only under `<`; '
            '(NEG) in every preprocessor variant each value CIntFromPy delivers for an unsigned TYPE (__PYX_VERIFY_RETURN_INT[_EXC] sites, `return (TYPE) <digits>`) lies in the else-arm of / behind a '
            'rejecting negativity test of x, in the function or at all its unsigned-capable call sites, unless the value comes from a C-API converter that rejects negatives itself (rules/sC05.py); '
-           '(FIXED) the hand-named to_py/from_py functions of the fixed integer types (size_t, Py_ssize_t, Py_hash_t, Py_UCS4, Py_UNICODE) take/return a C type of the same signedness class and at least the width.')
-NOT_DECIDED = ('that a negativity test recognised by NEG (IsNeg(x), Py_SIZE(x) < 0, RichCompareBool(x, Py_False, Py_LT) == 1) is itself correct; range conditions per digit count (8 * sizeof(T) > n * PyLong_SHIFT ...), the text pylong_join generates, the fallback bit-chunk loop, '
-               'TypeError for non-integers (delegated to __Pyx_PyNumber_Long), error_condition of external typedefs (instance attributes); '
+           '(FIXED) the hand-named to_py/from_py functions of the fixed integer types (size_t, Py_ssize_t, Py_hash_t, Py_UCS4, Py_UNICODE) take/return a C type of the same signedness class and at least the width; '
+           '(MODEL) the instantiated CIntFromPy (five preprocessor variants), __Pyx_PyIndex_AsSsize_t / __Pyx_PyLong_AsSsize_t and CIntToPy are evaluated by the checker\'s C interpreter on model machines '
+           '(8/16/32-bit TYPE against 8/16-bit long and long long, 3-bit PyLong digits, model PyLong objects with the documented contracts of the accessors and C-API converters): every Python int of up to three digits '
+           'and the boundary / digit-pattern set beyond is converted exactly when it fits, raises OverflowError and returns (TYPE) -1 when it does not, objects with __index__ are converted, other objects give TypeError, '
+           'no undefined C operation (NULL dereference, signed shift into the sign bit, read past the digits) is executed, and CIntToPy hands back the value of the C integer (rules/sC05.py); '
+           '(ERRTYPE) the sentinel comparison emitted by error_condition (CType and the external-typedef variant, cast_code & co. resolved) is true for (T)-1 and false otherwise for every integer rank x signedness under C\'s promotion rules.')
+NOT_DECIDED = ('the transfer of MODEL from the model widths (8-bit byte, 3-bit digits) to the production widths - it rests on the width-parametricity of the template (widths only through sizeof / PyLong_SHIFT / the literal 8); '
+               'the accessor macros themselves (__Pyx_PyLong_IsNeg, _DigitCount, _Digits, _CompactValue: modelled by their contracts) and __Pyx_PyNumber_Long; the text pylong_join generates (its documented meaning is modelled); '
+               'the bit-chunk fallback of __Pyx_LargePyLong_* (PyPy / limited API) and the int.from_bytes() fallback of CIntToPy; error_condition of typedefs whose exception_value is an instance attribute other than -1; '
                'DESIGN\'s "sibling agreement of the {{for _size in (2,3,4)}} sets" is deliberately NOT implemented: a branch that handles fewer digit counts '
                'falls through to the generic path and is still correct, so set equality is not a necessary condition.')
 ASSUMPTIONS = ['CPython headers of the running interpreter are the reference for C-API types; PyLong_AsInt (3.13+) is frozen as returning int']
@@ -449,9 +457,10 @@ def _guard_before(text, pos):
 def _to_py_sites(text):
     """[(api, cast, op, G, sign branch)] for `return PyLong_FromX((cast) value)` in CIntToPy."""
     out = []
-    mu = re.search(r'if\s*\(\s*is_unsigned\s*\)\s*\{', text)
+    mu = re.search(r'if\s*\(\s*(!?)\s*is_unsigned\s*\)\s*\{', text)
     if not mu:
         raise AnalysisError('CIntToPy no longer branches on is_unsigned')
+    negated = bool(mu.group(1))
     lb = mu.end() - 1
     depth, j = 0, lb
     while j < len(text):
@@ -477,6 +486,9 @@ def _to_py_sites(text):
                 break
         j += 1
     s_end = j
+    if negated:
+        # `if (!is_unsigned) { signed arm } else { unsigned arm }`
+        lb, u_end, sb, s_end = sb, s_end, lb, u_end
     for m in re.finditer(r'\breturn\s+(PyLong_From\w+)\s*\(\s*\(\s*([^()]+?)\s*\)\s*value\s*\)\s*;', text):
         if lb < m.start() < u_end:
             br = 'unsigned'
@@ -566,9 +578,212 @@ def rule_api(ctx):
 
 
 
+# =============================================================================================== ERRTYPE
+"""(C05-ERRTYPE)  The from-Python converters return ({{TYPE}}) -1 on failure, i.e. the bit pattern of -1 *converted to the target type*.  The test the
+Python side emits after the call (error_condition) is C text; whether it recognises that value depends on C's integer promotions: for an unsigned type
+narrower than int, `r == -1` compares 255 with -1 and is never true.  The rule renders every decided path of the effective error_condition of the classes
+that use the template (and of the external-typedef variant) as a C condition over the roles R (call result), T (the type's own spelling) and the class
+constant exception_value, resolving cast_code() & co. through the class index, and evaluates the conjunct that mentions R with the checker's typed C
+evaluator (rules/pC03.py) over every integer rank x signedness x {LP64, ILP32}:
+      R == (T)-1                  => the test is true       (a failed conversion is noticed)
+      R != (T)-1, R in T          => the test is false      (a converted value is not taken for an error without PyErr_Occurred() being asked ... the
+                                                             sentinel conjunct alone must not fire for other values)."""
+ERR_TYPES = [('char', 8), ('short', 16), ('int', 32), ('long', None), ('long long', 64)]
+
+
+def _method_templates(ix, cls, name, argsrc, depth=0):
+    """alternative C texts of self.<name>(args) when the method returns emitted-text templates; None entries = unmodelled alternatives"""
+    if depth > 3:
+        return [None]
+    hit = ix.find_method(cls, name) if not isinstance(cls, tuple) else None
+    if hit is None:
+        return [None]
+    owner, fn = hit
+    params = [a.arg for a in fn.args.args][1:]
+    sub = dict(zip(params, argsrc))
+    out = []
+    for n in walk_no_nested(fn):
+        if isinstance(n, ast.Return) and n.value is not None:
+            out += _render_err(ix, cls, fn, n.value, sub, depth + 1)
+    return out or [None]
+
+
+def _render_err(ix, cls, fn, node, sub, depth=0):
+    """alternatives of an emitted-text expression of a type method; roles: sa_r (result), sa_t (own type spelling), literal sentinel"""
+    selfname = fn.args.args[0].arg
+    src = ast.unparse(node).replace(' ', '')
+    if isinstance(node, ast.Name) and node.id in sub:
+        return [sub[node.id]]
+    if isinstance(node, ast.Name) and depth < 6:
+        from ..rules.iface import local_env
+        vals = local_env(fn).get(node.id) or []
+        if vals:
+            out = []
+            for v in vals:
+                out += _render_err(ix, cls, fn, v, sub, depth + 1)
+            return out
+    if re.fullmatch(re.escape(selfname) + r"\.(sign_and_name\(\)|empty_declaration_code\(\)|declaration_code\((''|\"\")\))", src):
+        return ['sa_t']
+    if src == selfname + '.exception_value':
+        a = ix.find_class_attr(cls, 'exception_value')
+        try:
+            v = ast.literal_eval(a[1]) if a is not None else None
+        except Exception:
+            v = None
+        return [str(v) if isinstance(v, int) and not isinstance(v, bool) else '-1']        # instance attribute / None: the converters return (T)-1
+    if isinstance(node, ast.Constant) and isinstance(node.value, (int, str)) and not isinstance(node.value, bool):
+        return [str(node.value)]
+    if isinstance(node, ast.Call) and isinstance(node.func, ast.Attribute):
+        args = []
+        recv = node.func.value
+        call_args = list(node.args)
+        target_cls = cls
+        if isinstance(recv, ast.Name) and recv.id != selfname and call_args and isinstance(call_args[0], ast.Name) and call_args[0].id == selfname:
+            k = ix.cls('PyrexTypes', recv.id)            # BaseType.cast_code(self, x)
+            if k is None:
+                return [None]
+            target_cls, call_args = k, call_args[1:]
+            hit = (k, k.methods.get(node.func.attr)) if node.func.attr in k.methods else None
+        elif isinstance(recv, ast.Name) and recv.id == selfname:
+            hit = ix.find_method(cls, node.func.attr)
+        else:
+            return [None]
+        if not hit or hit[1] is None:
+            return [None]
+        alts = [[]]
+        for a in call_args:
+            r = _render_err(ix, cls, fn, a, sub, depth + 1)
+            alts = [x + [y] for x in alts for y in r]
+        out = []
+        for argsrc in alts:
+            if any(a is None for a in argsrc):
+                out.append(None)
+                continue
+            owner, m = hit
+            params = [a.arg for a in m.args.args][1:]
+            sub2 = dict(zip(params, argsrc))
+            if depth > 4:
+                out.append(None)
+                continue
+            for n in walk_no_nested(m):
+                if isinstance(n, ast.Return) and n.value is not None:
+                    out += _render_err(ix, cls, m, n.value, sub2, depth + 1)
+        return out or [None]
+    t = str_template(node)
+    if t is None:
+        return [None]
+    text, phs = t
+    alts = ['']
+    parts = text.split(PLACEHOLDER)
+    for i, p in enumerate(parts):
+        alts = [None if a is None else a + p for a in alts]
+        if i < len(phs):
+            r = _render_err(ix, cls, fn, phs[i], sub, depth + 1) if phs[i] is not None else [None]
+            alts = [None if (a is None or y is None) else a + y for a in alts for y in r]
+    return alts
+
+
+def _sentinel_conjuncts(cond):
+    from ..engine import cexpr
+    e = cexpr.parse(cond)
+
+    def conj(x):
+        while x[0] == 'call' and x[1] in ('likely', 'unlikely') and len(x[2]) == 1:
+            x = x[2][0]
+        if x[0] == 'bin' and x[1] == '&&':
+            return conj(x[2]) + conj(x[3])
+        return [x]
+    return [c for c in conj(e) if any(y[0] == 'id' and y[1] == 'sa_r' for y in cexpr.walk(c))]
+
+
+def errtype_problems(cond):
+    """first problem of the sentinel part of an emitted error condition over all integer types, or None"""
+    from ..rules import pC03 as MC
+    from ..engine import cexpr
+    try:
+        parts = _sentinel_conjuncts(cond)
+    except cexpr.ParseError as e:
+        raise AnalysisError('C05-ERRTYPE: cannot parse the emitted error condition `%s`: %s' % (cond, e))
+    if not parts:
+        return None
+    cache = {}
+    for mname, lbits in (('LP64', 64), ('ILP32', 32)):
+        for tname, bits in ERR_TYPES:
+            bits = bits or lbits
+            for signed in (False, True):
+                types = {'char': (8, True), 'short': (16, True), 'int': (32, True), 'long': (lbits, True), 'long long': (64, True), 'size_t': (lbits, False),
+                         'Py_ssize_t': (lbits, True), 'sa_t': (bits, signed)}
+                it = MC.Interp(MC.Model(types, mname), {}, {}, {}, cache)
+                sent = MC.wrap(-1, bits, signed)
+                lo, hi = MC.lo_hi(bits, signed)
+                probes = [sent] + [v for v in {0, 1, 2, lo, hi, hi - 1, 255, 65535, (1 << 32) - 1, -2, 254} if lo <= v <= hi and v != sent]
+                for v in probes:
+                    try:
+                        val = all(bool(it.ev(c, [{'sa_r': (v, bits, signed)}])[0]) for c in parts)
+                    except MC.CUndefined as u:
+                        return 'evaluating the test for a %s%s result is undefined behaviour: %s' % ('' if signed else 'unsigned ', tname, u)
+                    except MC.Unsupported as u:
+                        raise AnalysisError('C05-ERRTYPE: the emitted error condition `%s` is outside the modelled C subset: %s' % (cond, u))
+                    tn = ('' if signed else 'unsigned ') + tname
+                    if v == sent and not val:
+                        return ('for the target type `%s` (%s) the converter returns (%s)-1 = %d on failure, for which the emitted test is FALSE (integer promotion compares %d with -1): '
+                                'the pending OverflowError/TypeError is not noticed, execution continues with the value %d' % (tn, mname, tn, sent, sent, sent))
+                    if v != sent and val:
+                        return 'for the target type `%s` (%s) the correctly converted value %d satisfies the sentinel test' % (tn, mname, v)
+    return None
+
+
+def rule_errtype(ctx):
+    ix = ctx.index
+    r = Rule('C05-ERRTYPE', 'the sentinel comparison in error_condition is true for (T)-1 and false for every other value of T, for all integer ranks and signednesses (C promotion rules)', floor=2)
+    cil = ix.cls('PyrexTypes', 'CIntLike')
+    users = []
+    for c in ix.subclasses(cil):
+        a = ix.find_class_attr(c, 'from_py_function')
+        if a is not None and isinstance(a[1], ast.Constant) and a[1].value is None:
+            users.append(c)
+    td = ix.cls('PyrexTypes', 'CTypedefType')
+    todo = []
+    seen_fn = {}
+    for c in users:
+        eff = ix.find_method(c, 'error_condition')
+        if eff is None:
+            raise AnalysisError('%s has no error_condition' % c.name)
+        seen_fn.setdefault(id(eff[1]), (eff[0], eff[1], c))
+    for owner, fn, c in seen_fn.values():
+        todo.append(('PyrexTypes.%s.error_condition(%s)' % (owner.name, c.name), owner, fn, c))
+    if td is not None and 'error_condition' in td.methods:
+        todo.append(('PyrexTypes.CTypedefType.error_condition(external typedef)', td, td.methods['error_condition'], td))
+    for key, owner, fn, c in todo:
+        res = fn.args.args[1].arg if len(fn.args.args) > 1 else None
+        conds = set()
+        unmodelled = 0
+        for n in walk_no_nested(fn):
+            # every emitted-text expression of the method that contains a comparison
+            if isinstance(n, (ast.BinOp, ast.JoinedStr)) and str_template(n) is not None and '==' in str_template(n)[0]:
+                for alt in _render_err(ix, c, fn, n, {res: 'sa_r'}):
+                    if alt is None:
+                        unmodelled += 1
+                    else:
+                        conds.add(' '.join(alt.split()))
+        if not conds and not unmodelled:
+            continue
+        r.inst(key, sample='%s: %s' % (key, sorted(conds)))
+        if unmodelled:
+            r.info('%s: %d alternative(s) of the emitted comparison are not modelled and not decided' % (key, unmodelled))
+        for cond in sorted(conds):
+            p = errtype_problems(cond)
+            if p:
+                r.violate(key, owner.module.rel, fn.lineno, '%s emits `%s` (sa_r = the converted value, sa_t = the C type): %s' % (key, cond, p))
+                break
+    r.positive_control(errtype_problems('(sa_r == -1)') is not None and errtype_problems('(sa_r == (long)-1)') is not None and errtype_problems('(sa_r == ((sa_t)-1))') is None,
+                       'uncast / long-cast sentinel fire, the own-type cast passes')
+    return r
+
+
 def run(ctx):
     from ..rules import fixedconv, sC05
-    return [rule_ctx(ctx), rule_sent(ctx), rule_digits(ctx), rule_api(ctx), fixedconv.rule_fixed(ctx), sC05.rule_neg(ctx)]
+    return [rule_ctx(ctx), rule_sent(ctx), rule_digits(ctx), rule_api(ctx), fixedconv.rule_fixed(ctx), sC05.rule_neg(ctx), sC05.rule_model(ctx), rule_errtype(ctx)]
 
 
 MUTATIONS = [
@@ -594,6 +809,8 @@ MUTATIONS = [
     ('Cython/Utility/TypeConversion.c', 'unsigned dispatcher: rejection narrowed to `IsNeg(x) && !IsCompact(x)`', 'C05-NEG'),
     ('Cython/Utility/TypeConversion.c', 'unsigned dispatcher: `if (!IsCompact(x)) return __Pyx_PyULong_...(x);` placed before the IsNeg test', 'C05-NEG (digit sites of PyULong)'),
     ('Cython/Utility/TypeConversion.c', '__Pyx_PyULong: #elif arm loses its Py_SIZE(x) < 0 test and converts through PyLong_AsLong', 'C05-NEG'),
+    ('mutants/C05/*', '15 + 6 brainstormed breaking edits (digit-count guards off by one digit, sign not applied, workers exchanged, is_signed / native-bytes flags, bytes_copied >=, error_condition casts, '
+                      'VERIFY macro weakened, NULL checks dropped, compact accessor of the wrong signedness, ...) and 12 behaviour-preserving rewrites; see meta.json of each', 'C05-MODEL / C05-ERRTYPE'),
     # behaviour-preserving edits, all silent
     ('Cython/Utility/TypeConversion.c', '__Pyx_PyULong: #elif arm loses its Py_SIZE(x) < 0 test, or the PyPy arm its `result == 1` jump (PyLong_AsUnsignedLong[Long] reject negatives themselves)', 'silent'),
     ('Cython/Utility/TypeConversion.c', 'dispatcher: `if (likely(IsCompact(x) && !IsNeg(x))) VERIFY else if (IsNeg(x)) goto raise_neg_overflow; else ...`; early-exit form '
